@@ -693,7 +693,7 @@ def gen_cases(tier, seed):
     else:
         i = 0
         for name in all_configs():
-            for T in (1, 5, 25):
+            for T in (1, 5, 25, 50):
                 cases.append({"idx": i, "seed": seed, "config": name, "T": T, "n": 32768, "chunked": bool(i % 2),
                               "draw_seed": (seed * 1009 + i * 13 + 7) % (2 ** 30), "cost": 10 * T})
                 i += 1
